@@ -254,6 +254,163 @@ func runC04(c *core.Check) {
 	if n == 0 {
 		c.Note("C04.case-in-key-only: the printer has no case-changing call")
 	}
+	// block text is written verbatim, line by line
+	c.Rule("C04.verbatim-lines", "block strings and block comments are written line by line without altering the lines")
+	for _, name := range []string{"blockString", "blockComment"} {
+		fi := mustFunc(c, "d2format", "printer", name)
+		if fi == nil {
+			continue
+		}
+		info := fi.Pkg.TypesInfo
+		okV := false
+		why := "no loop over the lines found"
+		ast.Inspect(fi.Decl.Body, func(nd ast.Node) bool {
+			rs, ok := nd.(*ast.RangeStmt)
+			if !ok || rs.Value == nil {
+				return true
+			}
+			v := core.ObjOf(info, rs.Value)
+			// the collection: strings.Split(<x>.Value, "\n") (directly or through a local)
+			src := rs.X
+			if o := core.ObjOf(info, src); o != nil {
+				if d := singleDef(fi, o); d != nil {
+					src = d.Rhs
+				}
+			}
+			call, ok := ast.Unparen(src).(*ast.CallExpr)
+			if !ok || !core.IsCallTo(info, call, "strings.Split") || !strings.HasSuffix(exprStr(call.Args[0]), ".Value") {
+				return true
+			}
+			wrote, altered := false, ""
+			ast.Inspect(rs.Body, func(m ast.Node) bool {
+				switch x := m.(type) {
+				case *ast.CallExpr:
+					if core.IsCallTo(info, x, "strings.(*Builder).WriteString") && len(x.Args) == 1 {
+						if core.ObjOf(info, x.Args[0]) == v {
+							wrote = true
+						} else if strings.Contains(exprStr(x.Args[0]), rs.Value.(*ast.Ident).Name) {
+							altered = exprStr(x.Args[0])
+						}
+					}
+				case *ast.AssignStmt:
+					for _, l := range x.Lhs {
+						if core.ObjOf(info, l) == v {
+							altered = exprStr(x.Lhs[0]) + " = " + exprStr(x.Rhs[0])
+						}
+					}
+				}
+				return true
+			})
+			if wrote && altered == "" {
+				okV, why = true, ""
+			} else if altered != "" {
+				why = "the line is altered before it is written: " + altered
+			} else {
+				why = "the line variable is not what is written"
+			}
+			return true
+		})
+		c.Decide(okV, "C04.verbatim-lines", name+":line-written-as-is", fi.Decl.Pos(), "each line of Value is written unmodified", name+" does not write the lines of the block verbatim ("+why+"): block text is the label or code source, so trailing blanks (markdown hard breaks) or whitespace-only lines change the diagram")
+	}
+	// which nodes the printer treats as board blocks
+	c.Rule("C04.board-nodes", "only single-segment layers/scenarios/steps keys are board blocks; the printer skips a board node only when it hoists it or it declares nothing")
+	if ib := mustFunc(c, "d2ast", "MapNodeBox", "IsBoardNode"); ib != nil {
+		single := false
+		ast.Inspect(ib.Decl.Body, func(nd ast.Node) bool {
+			is, ok := nd.(*ast.IfStmt)
+			if !ok || len(is.Body.List) != 1 {
+				return true
+			}
+			rs, ok := is.Body.List[0].(*ast.ReturnStmt)
+			if !ok || len(rs.Results) != 1 || exprStr(rs.Results[0]) != "false" {
+				return true
+			}
+			var flat func(e ast.Expr)
+			flat = func(e ast.Expr) {
+				if be, ok := ast.Unparen(e).(*ast.BinaryExpr); ok && be.Op == token.LOR {
+					flat(be.X)
+					flat(be.Y)
+					return
+				}
+				s := exprStr(e)
+				if strings.HasPrefix(s, "len(") && strings.HasSuffix(s, ".Key.Path) != 1") {
+					single = true
+				}
+			}
+			flat(is.Cond)
+			return true
+		})
+		c.Decide(single, "C04.board-nodes", "IsBoardNode:single-segment-key", ib.Decl.Pos(), "returns false unless the key has exactly one segment", "IsBoardNode accepts keys with several segments (layers.x.y: …): the printer treats them as board blocks and drops those it does not hoist")
+	}
+	if mp := mustFunc(c, "d2format", "printer", "_map"); mp != nil {
+		info := mp.Pkg.TypesInfo
+		fl := core.NewFlow(mp.Pkg, mp.Decl.Body)
+		ncont := 0
+		ast.Inspect(mp.Decl.Body, func(nd ast.Node) bool {
+			is, ok := nd.(*ast.IfStmt)
+			if !ok || !strings.Contains(exprStr(is.Cond), "IsBoardNode()") {
+				return true
+			}
+			ast.Inspect(is.Body, func(m ast.Node) bool {
+				br, ok := m.(*ast.BranchStmt)
+				if !ok || br.Tok != token.CONTINUE {
+					return true
+				}
+				ncont++
+				// hoisted (append to the board list on every path to this continue inside the branch) or declares nothing
+				okc := false
+				how := ""
+				// `continue` is an edge, not a node of the flow graph: take the statement just before it
+				var anchor ast.Node = br
+				ast.Inspect(is.Body, func(k ast.Node) bool {
+					if blk, ok := k.(*ast.BlockStmt); ok {
+						for i, st := range blk.List {
+							if st == ast.Stmt(br) && i > 0 {
+								anchor = blk.List[i-1]
+							}
+						}
+					}
+					return true
+				})
+				for _, g := range fl.GuardsOfNode(anchor) {
+					for _, a := range g.Atoms() {
+						s := exprStr(a.Cond)
+						if a.True && strings.HasSuffix(s, ".Value.Import == nil") {
+							okc, how = true, "under "+s+" (no imported boards) after the non-empty-map case was handled"
+						}
+					}
+				}
+				if !okc {
+					// an append of the node to a slice precedes the continue in the same block
+					ast.Inspect(is.Body, func(k ast.Node) bool {
+						blk, ok := k.(*ast.BlockStmt)
+						if !ok {
+							return true
+						}
+						for i, st := range blk.List {
+							if st == ast.Stmt(br) {
+								for _, prev := range blk.List[:i] {
+									if as, ok := prev.(*ast.AssignStmt); ok && len(as.Rhs) == 1 {
+										if call, ok := ast.Unparen(as.Rhs[0]).(*ast.CallExpr); ok && exprStr(call.Fun) == "append" && len(call.Args) == 2 && strings.HasPrefix(exprStr(as.Lhs[0]), "board") {
+											okc, how = true, "the node was appended to "+exprStr(as.Lhs[0])
+										}
+									}
+								}
+							}
+						}
+						return true
+					})
+				}
+				_ = info
+				c.Decide(okc, "C04.board-nodes", "_map:skip-board-node", br.Pos(), how, "the printer skips a board node without hoisting it although it may carry content (e.g. `layers: @file`): the boards disappear from the formatted text")
+				return true
+			})
+			return true
+		})
+		if ncont == 0 {
+			c.Fail("C04.board-nodes", "_map:skip-board-node:none", mp.Decl.Pos(), "the board-node branch of _map was not found")
+		}
+	}
 	// keyword lookups
 	nl := 0
 	for _, rel := range []string{"d2ir", "d2compiler", "d2graph"} {
